@@ -690,7 +690,7 @@ pub fn gen_c13(rng: &mut Rng) -> Case {
   let outside = outside.as_str();
   target.push(outside.into());
   target.push("secret".into());
-  let kind = rng.below(20);
+  let kind = rng.below(22);
   let ups = vec!["..".to_string(); depth_up];
   // a long name made of multi-byte characters (diagnostics that abbreviate must not cut inside a character)
   let long_name = |rng: &mut Rng| -> String {
@@ -717,6 +717,9 @@ pub fn gen_c13(rng: &mut Rng) -> Case {
     14 | 15 | 19 => ups.iter().cloned().chain([outside.to_string(), "secret".to_string()]).collect(),
     // the parent-directory name padded with white space: an ordinary (if odd) name, so the file is simply not there
     17 => ups.iter().map(|u| format!("{u}{}", *rng.pick(&[" ", "\t", "  "]))).chain([outside.to_string(), "secret".to_string()]).collect(),
+    // one component longer than any file name can be (more than 255 bytes), made of many short steps: separators, `.`
+    // and `..` inside it
+    20 | 21 => vec![format!("sub/{}{}/{outside}/secret", "./".repeat(rng.range(120, 400) as usize), std::iter::repeat("..").take(depth_up + 1).collect::<Vec<_>>().join("/"))],
     // separators and a line feed in one component
     18 => vec![format!("{}/{outside}/secret\n", ups.join("/"))],
     // the listed path is harmless and absent; a `path.utf-8` list beside it (a key imdl does not know) escapes
@@ -730,7 +733,7 @@ pub fn gen_c13(rng: &mut Rng) -> Case {
       vec!["<ABS>".to_string()]
     }
   };
-  if kind == 1 || kind == 3 || kind == 12 {
+  if kind == 1 || kind == 3 || kind == 12 || kind == 20 || kind == 21 {
     c.tree.insert("sub".into(), Node::Dir);
   }
   let mut pos = rng.below(c.files.len() as u64 + 1) as usize;
@@ -975,6 +978,28 @@ fn verify_scenarios(ctx: &Ctx, report: &mut Report) {
     }
     Cmd::new(&ctx.imdl, &["torrent", "verify", "--input", "t.torrent", "--content", "data"]).cwd(&sb.root).run()
   });
+  // nowhere to write the report to (standard error closed): the verdict still is the exit status
+  for (good, want) in [(false, 1), (true, 0)] {
+    let label = if good { "standard-error-closed-matching-content" } else { "standard-error-closed-other-content" };
+    if let Some(o) = &only {
+      if !o.iter().any(|x| x == label) {
+        continue;
+      }
+    }
+    let sb = Sandbox::new(&ctx.work, "c03s");
+    sb.write("t.torrent", &single("foo", 4, b"0123456789", 0));
+    sb.write("foo", if good { b"0123456789" } else { b"0123456780" });
+    // (a pipe whose reader has gone: every write to it fails)
+    let o = std::process::Command::new("bash").arg("-c").arg("\"$0\" \"$@\" 2> >(exec 0<&-; sleep 0.4)").arg(&ctx.imdl).args(["torrent", "verify", "--input", "t.torrent", "--content", "foo"]).current_dir(&sb.root).env("TERM", "dumb").output();
+    let Ok(o) = o else { continue };
+    let case = json!({"scenario": label});
+    report.case(Some(fnv_str(label)));
+    report.hit(&format!("scenario:{label}"));
+    // with matching content a run that cannot print "succeeded" may fairly fail; with other content it must never succeed
+    if !good && o.status.code() == Some(0) {
+      report.fail("property", "verify-verdict", case, format!("content differs and standard error is closed: exit status 0, the recomputation gives {want}"));
+    }
+  }
 }
 
 /// minimised past failures, always run first
@@ -1075,7 +1100,8 @@ fn history(ctx: &Ctx, seed: u64) -> Report {
   let mut r = Report::new("");
   let mut rng = Rng(seed);
   let sb = Sandbox::new(&ctx.work, "c02");
-  let p = *rng.pick(&[1u64, 2, 3, 5, 8, 16, 64, 1000, 16384]);
+  // (also lengths that are no power of two above the size of any I/O buffer, and one above the largest automatic choice)
+  let p = *rng.pick(&[1u64, 2, 3, 5, 8, 16, 64, 1000, 16384, 16384, 100_000, 70_001, 1 << 25]);
   let single = rng.chance(1, 4);
   let md5 = rng.chance(1, 2);
   let rename = rng.chance(1, 3);
@@ -1096,8 +1122,8 @@ fn history(ctx: &Ctx, seed: u64) -> Report {
         0 => 0,
         1 => k * unit,
         2 => k * unit + 1,
-        // larger than the reader's internal buffer
-        5 | 6 => 8193 + rng.below(30_000),
+        // larger than the reader's internal buffer (and, for the large piece lengths, than a piece)
+        5 | 6 => if p >= 70_000 && p < 1 << 20 { 150_000 + rng.below(200_000) } else { 8193 + rng.below(30_000) },
         _ => rng.below(3 * unit + 2),
       } as usize;
       orig.push((names[i].to_string(), rng.bytes(len)));
